@@ -162,7 +162,7 @@ def decide_guard(cond, domain, integer=()):
     return 'never', None
 
 
-def guard_rule(rep, rule, func, raise_conds, domain, what, where_fn, integer=(), own_only=True, skip=None):
+def guard_rule(rep, rule, func, raise_conds, domain, what, where_fn, integer=(), own_only=True, skip=None, suffix=''):
     """one instance per raising test of `func` (and of the functions it inlines when own_only is False)"""
     n = 0
     seen = {}
@@ -175,7 +175,7 @@ def guard_rule(rep, rule, func, raise_conds, domain, what, where_fn, integer=(),
         from .model import stmt_text
         txt = stmt_text(node.test)[:60]
         seen[txt] = seen.get(txt, 0) + 1
-        key = '%s::%s::%s::raise-if(%s)#%d' % (rule, func.module.relpath, func.qualname, txt, seen[txt])
+        key = '%s::%s::%s::raise-if(%s)#%d%s' % (rule, func.module.relpath, func.qualname, txt, seen[txt], suffix)
         verdict, info = decide_guard(cond, domain, integer)
         w = where_fn(node)
         if verdict == 'never':
